@@ -118,6 +118,7 @@ fn run_pairs<T: Sc>(ctx: &Ctx, total: &mut Collector) {
                     "pairs_excluded_because_|Δh'|_within_threshold_of_180°": l.excluded, "threshold_deg": tols::<T>().thr180,
                     "pairs_within_1e-3°_of_180°": l.excluded_1e3,
                     "pairs_with_|Δh'|>180_within_threshold_of_h1'+h2'=360° (the formula's own 5e-6·ΔE jump is added to tol)": l.near_sum360,
+                    "exact_mirror_pairs (a2 = 2^k·a1 > 0, b2 = −2^k·b1: Σ = 360° exactly, held to Sharma's Σ ≥ 360 branch without the jump allowance)": l.exact_mirror,
                     "pairs_that_needed_the_±4ulp_envelope": l.needed_envelope,
                     "pair_measure_evaluations_not_bit_symmetric": l.asym_bits,
                     "max_err_over_tol_in_the_sum>=360_branches_and_next_to_Σ=360° (not rounding; not part of the sub-check's max_err_over_tol)": l.best_ge360,
